@@ -13,7 +13,7 @@ struct Profile {
         void (*exec)(const Json &plan, RunResult &rr, Hist &h);
 };
 const Profile *find_profile(const std::string &name);
-extern const Profile prof_deflate, prof_oneshot, prof_inflate, prof_hdr, prof_ec, prof_kern, prof_cpu, prof_sched;
+extern const Profile prof_deflate, prof_oneshot, prof_inflate, prof_hdr, prof_ec, prof_kern, prof_cpu, prof_sched, prof_twin, prof_reuse;
 
 // steer-away switches for open known findings (set from known_findings.json by main; never from a replay)
 extern std::vector<std::string> g_avoid;
